@@ -28,6 +28,9 @@ impl<'buf, IO: Io> Connection<'_, 'buf, IO> {
         {
             return Err(Error::InvalidRequest);
         }
+        // A cancelled operation may have left a packet partially written: the DISCONNECT must not
+        // land inside it.
+        self.finish_partial_packet().await?;
         let mut buffer = [0u8; CONTROL_PACKET_LEN];
         // The dedicated control storage holds a plain or reason-only DISCONNECT even when the TX
         // arena is full. A DISCONNECT carrying properties does not fit there and is encoded in the
